@@ -1,5 +1,6 @@
 import Rtsp.Proofs.Sec.Admit
 import Rtsp.Proofs.Sec.Run
+import Rtsp.Proofs.Sec.Bytes
 /-
 C17 — secure sessions: media encrypted and authenticated end to end, no downgrade.
 
@@ -102,6 +103,21 @@ theorem ctx_mikey_roundtrip (c : Ctx) (csb : Nat) (rand : Bytes) (ts : Nat) (now
     simp only [hs, if_false] at hst
     rw [hst]
     simp [Ctx.state, lookup]
+
+/-- **key_exchange_through_bytes** (C17 ∘ C09).  The same as `ctx_mikey_roundtrip`, through the
+MIKEY wire format: the message is marshalled, parsed back by the byte-level model of `pkg/mikey`
+(its round-trip theorem belongs to C09) and only then given to `mikeyToContext`. -/
+theorem key_exchange_through_bytes (c : Ctx) (csb : Nat) (rand : Bytes) (ts : Nat) (now : Int)
+    (hk : c.key.length = 30) (hm : c.mki.length < 256) (hn : c.ssrcs.length < 256)
+    (hs : ∀ s ∈ c.ssrcs, s < 2 ^ 32) (hc : csb < 2 ^ 32) (hr1 : 16 ≤ rand.length) (hr2 : rand.length < 256)
+    (ht : ts < 2 ^ 64) (hw : InWindow now ts) :
+    ∃ m c', Rtsp.Mikey.Message.unmarshal (contextToMikey c csb rand ts).marshal = some m ∧
+      mikeyToContext m now = .ok c' ∧
+      c'.key = c.key ∧ c'.mki = c.mki ∧ c'.ssrcs = c.ssrcs ∧
+      (∀ s ∈ c.ssrcs, c'.roc s = c.roc s ∧ c'.state s = { index := c.roc s * 65536, processed := false }) := by
+  have wf := contextToMikey_wf c csb rand ts hk hm hn hs hc hr1 hr2 ht
+  obtain ⟨c', h1, h2, h3, h4, _, h5, _⟩ := ctx_mikey_roundtrip c csb rand ts now hk hw
+  exact ⟨_, c', Rtsp.Mikey.Message.unmarshal_marshal _ wf, h1, h2, h3, h4, h5⟩
 
 /-- **policy_rejects.**  `mikeyToContext` accepts a message only if it satisfies the whole policy:
 a T payload within one hour, an SP payload whose FIRST parameter of each of the six required types
@@ -236,6 +252,57 @@ theorem client_request_rules (scheme : Scheme) (cfgProto : Option SessProto) (mp
 man in the middle cannot downgrade RTP/SAVP to RTP/AVP) -/
 theorem client_rejects_profile_change (a b : Profile) : clientAcceptsProfile a b = true ↔ a = b := by
   cases a <;> cases b <;> simp [clientAcceptsProfile, Sec.clientProfileCheck]
+
+/-- the client's incoming context is keyed by material that came from the server — the KeyMgmt header
+of the SETUP answer first, then the media's, then the session's key-mgmt attribute — and passed the
+policy; only in client-managed-key mode (the server answered 463) it is the client's own key.
+Without any of them a secure SETUP fails. -/
+theorem client_in_key_source (managed inR inM inS : Bool) (own : Ctx) (resp media sess : Option Message) (now : Int) (c : Ctx)
+    (hR : inR = resp.isSome) (hM : inM = media.isSome) (hS : inS = sess.isSome)
+    (h : clientInCtx (clientInKeySource managed inR inM inS) own resp media sess now = some c) :
+    (managed = true ∧ c.key = own.key ∧ c.mki = own.mki) ∨
+    (managed = false ∧ ∃ m, mikeyToContext m now = .ok c ∧
+      ((resp = some m) ∨ (resp = none ∧ media = some m) ∨ (resp = none ∧ media = none ∧ sess = some m))) := by
+  cases managed with
+  | true =>
+    left
+    simp only [clientInKeySource, if_true, clientInCtx, initCtx] at h
+    split at h; · cases h
+    split at h; · cases h
+    simp only [applyROCs, Option.some.injEq] at h
+    subst h
+    exact ⟨rfl, rfl, rfl⟩
+  | false =>
+    right
+    refine ⟨rfl, ?_⟩
+    cases resp with
+    | some m =>
+      simp only [Option.isSome_some] at hR; subst hR
+      simp only [clientInKeySource, Bool.false_eq_true, if_false, if_true, clientInCtx, Option.bind_some] at h
+      cases hm : mikeyToContext m now with
+      | error e => simp [hm, Except.toOption] at h
+      | ok c' => simp [hm, Except.toOption] at h; subst h; exact ⟨m, hm, Or.inl rfl⟩
+    | none =>
+      simp only [Option.isSome_none] at hR; subst hR
+      cases media with
+      | some m =>
+        simp only [Option.isSome_some] at hM; subst hM
+        simp only [clientInKeySource, Bool.false_eq_true, if_false, if_true, clientInCtx, Option.bind_some] at h
+        cases hm : mikeyToContext m now with
+        | error e => simp [hm, Except.toOption] at h
+        | ok c' => simp [hm, Except.toOption] at h; subst h; exact ⟨m, hm, Or.inr (Or.inl ⟨rfl, rfl⟩)⟩
+      | none =>
+        simp only [Option.isSome_none] at hM; subst hM
+        cases sess with
+        | some m =>
+          simp only [Option.isSome_some] at hS; subst hS
+          simp only [clientInKeySource, Bool.false_eq_true, if_false, if_true, clientInCtx, Option.bind_some] at h
+          cases hm : mikeyToContext m now with
+          | error e => simp [hm, Except.toOption] at h
+          | ok c' => simp [hm, Except.toOption] at h; subst h; exact ⟨m, hm, Or.inr (Or.inr ⟨rfl, rfl, rfl⟩)⟩
+        | none =>
+          simp only [Option.isSome_none] at hS; subst hS
+          simp [clientInKeySource, clientInCtx] at h
 
 /-- **no_downgrade_on_redirect.**  Along ANY chain of redirects that starts on rtsps the client's
 scheme stays rtsps, and the chain is followed to the end only if every Location is rtsps. -/
@@ -398,6 +465,60 @@ theorem tamper_not_delivered_rtcp {W WC} (ci : Cipher W WC) (hl : Laws ci) (c : 
       subst h
       obtain ⟨s, i, e⟩ := hl.auth_c _ _ _ _ hd
       exact ⟨s, i, by rw [e]⟩
+
+/-- **delivered_only_authentic.**  Over ANY sequence of frames (an adversary may inject, alter,
+reorder, replay at will): every payload a receiver with a context hands to the application is the
+payload of an `E` image, under the receiver's key and MKI, that was in the sequence at that
+position, for the SSRC and sequence number written in that frame. -/
+theorem delivered_only_authentic {W WC} (ci : Cipher W WC) (hl : Laws ci) (r : RecvFmt) (c : Ctx) (hc : r.inCtx = some c)
+    (fs : List (Frame W)) (i : Nat) (p : Bytes)
+    (h : (recvAll ci r fs).2[i]? = some (.deliver p)) :
+    ∃ f roc, fs[i]? = some f ∧ f.body = .prot (ci.E c.key c.mki f.ssrc roc f.seq p) := by
+  induction fs generalizing r c i with
+  | nil => simp [recvAll] at h
+  | cons f rest ih =>
+    simp only [recvAll] at h
+    cases i with
+    | zero =>
+      simp only [List.getElem?_cons_zero, Option.some.injEq] at h
+      obtain ⟨roc, e⟩ := (tamper_not_delivered ci hl r c f hc).1 (readRTP ci r f).1 p (by rw [← h])
+      exact ⟨f, roc, rfl, e⟩
+    | succ j =>
+      simp only [List.getElem?_cons_succ] at h
+      obtain ⟨c', hc', hk, hm⟩ := readRTP_keeps_key ci r f c hc
+      obtain ⟨g, roc, hg, e⟩ := ih (readRTP ci r f).1 c' hc' j h
+      exact ⟨g, roc, by simpa using hg, by rw [← hk, ← hm]; exact e⟩
+
+/-- RTCP: whatever the sender protects, a receiver with the same key and MKI delivers unchanged
+(the SRTCP index travels in the packet; no replay window) -/
+theorem rtcp_roundtrip {W WC} (ci : Cipher W WC) (hl : Laws ci) (a b : Ctx) (hk : b.key = a.key) (hm : b.mki = a.mki)
+    (ssrc : Nat) (p : Bytes) (out : Option Ctx) (body : BodyC WC)
+    (h : writeRTCP ci (some a) ssrc p = some (out, body)) : readRTCP ci (some b) body = .deliver p := by
+  obtain ⟨idx, rfl⟩ := wire_is_ciphertext_rtcp ci a ssrc p out body h
+  simp [readRTCP, Ctx.decryptRTCP, hk, hm, hl.dec_enc_c]
+
+/-- **udp_datagrams_are_ciphertext.**  TLS server, any set of readers each admitted by `serverSetup`
+(playing, not a back channel): every frame written for a reader that is NOT interleaved in the TLS
+connection is the `E` image of the payload under the stream's key. -/
+theorem udp_datagrams_are_ciphertext {W WC} (ci : Cipher W WC) (cfg : ServerCfg) (htls : cfg.tls = true) (c0 : Ctx)
+    (readers : List SessMedia)
+    (hadm : ∀ r ∈ readers, ∃ tunnel st setupped inUse fresh now req, st ≠ SessState.preRecord ∧ req.backChannel = false ∧
+        serverSetup cfg tunnel st setupped inUse (streamCtx cfg c0) fresh now req = .ok r)
+    (p : Pkt) (out : Option Ctx) (fs : List (Frame W))
+    (h : streamWriteRTP ci (streamCtx cfg c0) readers p = some (out, fs)) :
+    ∃ roc, ∀ i (hi : i < readers.length), (readers[i]).protocol ≠ .tcp →
+      fs[i]? = some { ssrc := p.ssrc, seq := p.seq, body := .prot (ci.E c0.key c0.mki p.ssrc roc p.seq p.payload) } := by
+  have hready : ∀ r ∈ readers, r.profile = .savp → r.srtpOut.isSome := by
+    intro r hr hs
+    obtain ⟨tunnel, st, setupped, inUse, fresh, now, req, _, _, hok⟩ := hadm r hr
+    obtain ⟨_, _, hout⟩ := secure_setup_has_contexts cfg tunnel st setupped inUse c0 fresh now req r hok hs
+    rcases hout with e | e <;> simp [e]
+  obtain ⟨roc, _, hsec⟩ := stream_wire_is_ciphertext ci cfg c0 readers p out fs hready h htls
+  refine ⟨roc, ?_⟩
+  intro i hi hudp
+  obtain ⟨tunnel, st, setupped, inUse, fresh, now, req, _, _, hok⟩ := hadm readers[i] (List.getElem_mem hi)
+  have := (no_plain_udp_over_tls_setup cfg tunnel st setupped inUse c0 fresh now req readers[i] htls hok hudp).1
+  exact hsec i hi this
 
 /-! ## 4. roll-over counter, end to end -/
 
